@@ -32,13 +32,33 @@ structure Presented where
   verifier : String := ""
   deriving Repr, Inhabited
 
+/-- ONE of the tokens of a response as the observer decodes it (deep3-C04): which token it is (`id_token`, `access_token` -
+    a JWT is read, an opaque one is resolved -, `refresh_token`) and what it carries; a member this kind of token does
+    not carry is `none` -/
+structure Carried where
+  kind : String := ""
+  subject : Option String := none
+  client : Option String := none
+  scopes : Option (List String) := none
+  nonce : Option String := none
+  deriving Repr, Inhabited, DecidableEq
+
 /-- tokens handed out, decoded by the observer -/
 structure Tokens where
   subject : String := ""
   client : String := ""       -- azp / client_id of the issued tokens
   scopes : List String := []
   nonce : String := ""
+  carried : List Carried := []   -- deep3-C04: every single token of the response, each judged on its own
   deriving Repr, Inhabited, DecidableEq
+
+/-- does this token carry something else than the request's subject / client / scopes / nonce?  (the clause it breaks) -/
+def carriedBad (req : AuthReq) (v : Carried) : Option String :=
+  if v.subject.any (· != req.subject) then some ("tokens:" ++ v.kind ++ ":subject")
+  else if v.client.any (· != req.clientID) then some ("tokens:" ++ v.kind ++ ":client")
+  else if v.scopes.any (· != req.scopes) then some ("tokens:" ++ v.kind ++ ":scopes")
+  else if v.nonce.any (· != req.nonce) then some ("tokens:" ++ v.kind ++ ":nonce")
+  else none
 
 def registry (clients : List OPClient) : List (String × JWK) :=
   clients.flatMap fun c => c.keys.map fun k => (c.id, k)
@@ -79,7 +99,7 @@ def judge (m : MonState) (now : Int) (p : Presented) (obs : Option Tokens) : Opt
           else if tk.client != i.req.clientID then some "tokens:client"
           else if tk.scopes != i.req.scopes then some "tokens:scopes"
           else if tk.nonce != i.req.nonce then some "tokens:nonce"
-          else none
+          else tk.carried.findSome? (carriedBad i.req)   -- deep3-C04: each token of the response carries the request's values
 
 /-- state update: a callback that handed out `code` for request `req` -/
 def onCallback (m : MonState) (code : String) (req : AuthReq) : MonState :=
